@@ -44,20 +44,24 @@ impl Range { pub fn new(start: Position, end: Position) -> Self { Range { start,
 #[derive(Debug, Clone, Copy, PartialEq, Eq)]
 pub struct SemanticToken { pub delta_line: u32, pub delta_start: u32, pub length: u32, pub token_type: u32, pub token_modifiers_bitset: u32 }
 /// lsp_types::SemanticTokenType / SemanticTokenModifier: only the constants' identity matters here
+/// (an integer id instead of the protocol string keeps comparisons out of memcmp)
 #[derive(Debug, Clone, Copy, PartialEq, Eq)]
-pub struct SemanticTokenType(pub &'static str);
+pub struct SemanticTokenType(pub u8);
 impl SemanticTokenType {
-    pub const NAMESPACE: SemanticTokenType = SemanticTokenType("namespace");
-    pub const TYPE: SemanticTokenType = SemanticTokenType("type");
-    pub const FUNCTION: SemanticTokenType = SemanticTokenType("function");
-    pub const VARIABLE: SemanticTokenType = SemanticTokenType("variable");
-    pub const ENUM_MEMBER: SemanticTokenType = SemanticTokenType("enumMember");
-    pub const PARAMETER: SemanticTokenType = SemanticTokenType("parameter");
-    pub const PROPERTY: SemanticTokenType = SemanticTokenType("property");
-    pub const KEYWORD: SemanticTokenType = SemanticTokenType("keyword");
+    pub const NAMESPACE: SemanticTokenType = SemanticTokenType(0);
+    pub const TYPE: SemanticTokenType = SemanticTokenType(1);
+    pub const FUNCTION: SemanticTokenType = SemanticTokenType(2);
+    pub const VARIABLE: SemanticTokenType = SemanticTokenType(3);
+    pub const ENUM_MEMBER: SemanticTokenType = SemanticTokenType(4);
+    pub const PARAMETER: SemanticTokenType = SemanticTokenType(5);
+    pub const PROPERTY: SemanticTokenType = SemanticTokenType(6);
+    pub const KEYWORD: SemanticTokenType = SemanticTokenType(7);
+    pub const CLASS: SemanticTokenType = SemanticTokenType(8);
+    pub const ENUM: SemanticTokenType = SemanticTokenType(9);
+    pub const STRUCT: SemanticTokenType = SemanticTokenType(10);
 }
 #[derive(Debug, Clone, Copy, PartialEq, Eq)]
-pub struct SemanticTokenModifier(pub &'static str);
+pub struct SemanticTokenModifier(pub u8);
 /// ide::FileId
 #[derive(Debug, Clone, Copy, PartialEq, Eq, Hash)]
 pub struct FileId(pub u32);
